@@ -10,7 +10,7 @@
 (* tamper names the part of the file that was altered after sealing.           *)
 EXTENDS Integers, FiniteSets, TLC
 
-Tampers == {"none", "attr-value", "attr-name", "attr-type", "keyhash", "iv", "aad", "ct-first", "ct-last", "ct-padding", "tag", "cryptofooter"}
+Tampers == {"none", "attr-value", "attr-name", "attr-type", "keyhash", "iv", "aad", "ct-first", "ct-last", "ct-padding", "tag", "tag-size", "cryptofooter"}
 LenClasses == {"empty", "one", "block-1", "block", "block+1", "big"}
 
 VARIABLES sealed,   \* [len, extra (number of extra attributes), aad (sealed with associated data?), tamper]
@@ -25,7 +25,7 @@ Init == /\ sealed \in [len : LenClasses, extra : 0..2, aad : BOOLEAN, tamper : T
 \* does the authenticated data the reader feeds to GCM equal what was sealed?
 AadMatches == IF sealed.aad THEN given.aad = "same" ELSE given.aad \in {"none", "same"}
 HeaderIntact == sealed.tamper \notin {"attr-value", "attr-name", "attr-type", "iv"}
-BodyIntact   == sealed.tamper \notin {"ct-first", "ct-last", "ct-padding", "cryptofooter", "tag"}
+BodyIntact   == sealed.tamper \notin {"ct-first", "ct-last", "ct-padding", "cryptofooter", "tag", "tag-size"}
 
 ParseHeader == phase = "start" /\ phase' = "parsed" /\ UNCHANGED <<sealed, given, out>>
 KeyHashGate == /\ phase = "parsed"
